@@ -217,6 +217,7 @@ def execute(scn, world: World, plans: dict, res: Result, *, auto_heal: bool, rec
         traced = bool(scn["knobs"].get("trace"))
         calls = watch_calls(sim) if traced else None
         ref = None
+        replaced: dict = {}
         queue = [(k, op, plans.get(k)) for k, op in enumerate(scn["ops"])]
         qi = 0
         while qi < len(queue):
@@ -229,6 +230,16 @@ def execute(scn, world: World, plans: dict, res: Result, *, auto_heal: bool, rec
                     apply_op(target, world, ["set_input", var, per, values])
                 res.count("probe:heal_by_input")
                 H.add("R", "set_input", [var, per, values])
+            if op.get("rule_first"):
+                # "the cause is removed" the way a developer removes it: the rule whose
+                # formula failed is replaced in the running system by a corrected one
+                # (recognisably another: + 1000), and the request made again
+                name = op["rule_first"]
+                replaced.setdefault(name, type(world.tbs.get_variable(name)))
+                world.tbs.replace_variable(world.compile_variable(_corrected(world.var_specs[name])))
+                ref = None  # the fault-free reference is rebuilt under the new rule when next needed
+                res.count("probe:heal_by_replacing_the_rule")
+                H.add("R", "replace_variable", [name])
             before = readable(sim, env)
             roots_before = len(calls) if traced else 0
             if env.fs is not None:
@@ -370,9 +381,13 @@ def execute(scn, world: World, plans: dict, res: Result, *, auto_heal: bool, rec
                 # whose every reader failed to complete qualify: a completed value that
                 # was computed from the old input legitimately stays what it is.
                 cands = _guard_inputs(world, frames_now, before, after)
-                if cands and (fired[0][0] if isinstance(fired[0][0], int) else len(kinds)) % 2 == 0:
+                turn = fired[0][0] if isinstance(fired[0][0], int) else len(kinds)
+                culprit = _culprit(world, frames_now) if isinstance(fired[0][0], int) else None
+                if cands and turn % 2 == 0:
                     var, per = cands[0]
                     heal["input_first"] = [var, per, _new_value(world.var_specs[var])]
+                elif culprit and turn % 3 == 0:
+                    heal["rule_first"] = culprit
                 queue.insert(qi, (k, heal, None))
             if failed and op.get("heal") and profile == "acyclic":
                 # the cause was removed and the request still fails: compare with the twin
@@ -396,6 +411,9 @@ def execute(scn, world: World, plans: dict, res: Result, *, auto_heal: bool, rec
             res.count("probe:spiral_raised")
         if spirals and any(k.startswith("fault:") for k in res.stats):
             res.count("probe:fault_in_a_run_with_a_spiral")
+        # the world is shared by every execution of the scenario: put the rules back
+        for name, cls in replaced.items():
+            world.tbs.replace_variable(cls)
     return H
 
 
@@ -420,6 +438,28 @@ def _guard_inputs(world, frames, before, after):
             if not has_formula(world, var, key[1]) and key in after and key not in before:
                 readers.setdefault(key, []).append(f.done)
     return sorted(k for k, done in readers.items() if not any(done))
+
+
+def _culprit(world, frames):
+    """The variable whose formula was running when the request failed - provided none of
+    its computations completed in this request (a value completed under the old rule
+    legitimately stays, and the twin would compute it under the new one)."""
+    open_ = [f for f in frames if not f.done]
+    if not open_:
+        return None
+    name = open_[-1].var
+    spec = world.var_specs[name]
+    if spec["type"] not in ("float", "int") or spec["unit"] == "eternity" or not spec.get("formulas"):
+        return None
+    if any(f.var == name and f.done for f in frames):
+        return None
+    return name
+
+
+def _corrected(spec):
+    out = copy.deepcopy(spec)
+    out["formulas"] = {d: ["b", "+", e, ["c", 1000.0]] for d, e in spec["formulas"].items()}
+    return out
 
 
 def _new_value(spec):
